@@ -126,10 +126,15 @@ func main() {
 		for i, f := range files {
 			n := names[i]
 			b := srcs[n]
+			isTest := strings.HasSuffix(n, "_test.go")
 			var edits []edit
 			off := func(p token.Pos) int { return fset.Position(p).Offset }
 			for _, imp := range f.Imports {
 				path := strings.Trim(imp.Path.Value, "\"`")
+				if isTest && path == "math/rand" {
+					// test files hand *rand.Rand to testing/quick
+					continue
+				}
 				if shim, ok := shimOf[path]; ok {
 					name := defaultName[path]
 					if imp.Name != nil {
@@ -158,6 +163,10 @@ func main() {
 					return true
 				}
 				pos := fset.Position(rs.Pos())
+				if isTest {
+					// test code is not part of the simulated system
+					return true
+				}
 				bt, ok := mt.Key().Underlying().(*types.Basic)
 				if !ok || bt.Info()&types.IsOrdered == 0 {
 					die(2, "%s: range over map with unordered key type %s cannot be made deterministic", pos, mt.Key())
